@@ -231,7 +231,74 @@ pub fn run_semantic(prop: &str, trace: &Trace, env: &Env, opts: &SemOpts) -> Run
                 last_slots.remove(&ev.actor);
                 last_text.remove(&ev.actor);
             }
-            Op::Checkpoint { .. } | Op::Nested { .. } => {}
+            Op::Checkpoint { .. } => {}
+            Op::Nested { outer, inner } => {
+                // the outer step with other texts evaluated inside its callback invocations (section 17.1 of DESIGN.md)
+                let (lang, text, is_session): (String, &TextSpec, bool) = match &**outer {
+                    Op::Execute { lang, text } => (lang.clone(), text, false),
+                    Op::SessionText { text } => (session_lang.get(&ev.actor).cloned().unwrap_or_else(|| "en".into()), text, true),
+                    _ => continue,
+                };
+                if is_session && !w.sessions.contains_key(&ev.actor) {
+                    w.session_new(ev.actor, &lang);
+                    session_env.insert(ev.actor, EnvModel::default());
+                    session_lang.insert(ev.actor, lang.clone());
+                }
+                let rendered: Vec<String> = text.lines.iter().map(|l| match l { Line::Raw(s) => s.clone(), Line::Sem(st) => render_stmt(st, &w.cfg.fmt) }).collect();
+                let full = text.assemble(&rendered);
+                if is_session { last_slots.insert(ev.actor, text.expected_slots(&rendered)); last_text.insert(ev.actor, (text.clone(), rendered.clone())); }
+                let mut calls: Vec<crate::world::InnerCall> = Vec::new();
+                let mut inner_rendered: Vec<Vec<String>> = Vec::new();
+                for (idx, st) in inner.iter().enumerate() {
+                    let r2: Vec<String> = st.text.lines.iter().map(|l| match l { Line::Raw(s) => s.clone(), Line::Sem(s) => render_stmt(s, &w.cfg.fmt) }).collect();
+                    // only one-shot inner steps here (a session step would need that session's bookkeeping)
+                    calls.push(crate::world::InnerCall { idx, at_call: st.at_call, actor: st.actor, session: false, lang: st.lang.clone(), text: st.text.assemble(&r2), t: t + st.dt });
+                    inner_rendered.push(r2);
+                }
+                let (o, clk, results) = w.run_nested(if is_session { Some(ev.actor) } else { None }, &lang, &full, &ev.clock, calls);
+                rep.evaluations += 1 + results.len() as u64;
+                rep.clock_reads += clk.values.len() as u64 + results.iter().map(|r| r.reads as u64).sum::<u64>();
+                rep.mix_obs(&o.short());
+                // inner steps: judged by the model at their own instant, with an empty environment (one-shot)
+                for res in results.iter() {
+                    let st = &inner[res.idx];
+                    match res.fired_in_call { Some(_) => { rep.count("sched.step_inside_callback"); if st.dt != 0 { rep.count("sched.inner_sees_other_instant"); } } None => rep.count("probe.nested_not_reached") }
+                    rep.mix_obs(&res.obs.short());
+                    match &res.obs {
+                        CallObs::Unwound(p) => rep.violate("O-model", format!("{}:inner-{}", prop, p.key()), ei, format!("a text evaluated inside a callback invocation of another evaluation panicked: {} at {} in {}", p.msg, p.loc, p.func)),
+                        CallObs::Returned { lines, .. } => {
+                            let mut local = EnvModel::default();
+                            for (i, l) in st.text.lines.iter().enumerate() {
+                                let slot = match lines.get(i) { Some(s) => &s.slot, None => { rep.violate("O-model", format!("{}:inner-missing-slot", prop), ei, format!("inner text has no slot for line {}", i)); break; } };
+                                if let Line::Sem(stm) = l { if judge_line(&mut rep, ei, prop, stm, &inner_rendered[res.idx][i], slot, &mut local, &w, env, t + st.dt) { rep.judged += 1; } else { rep.unjudged += 1; } }
+                            }
+                        }
+                    }
+                }
+                // the outer step: judged as if nothing had happened inside it
+                let lines = match &o {
+                    CallObs::Unwound(p) => { rep.violate("O-model", format!("{}:nested-{}", prop, p.key()), ei, format!("evaluating {:?} (with another text evaluated inside its callback) panicked: {} at {} in {}", full, p.msg, p.loc, p.func)); continue; }
+                    CallObs::Returned { lines, .. } => lines,
+                };
+                if clk.distinct_values().len() > 1 {
+                    // the outer evaluation read the clock more than once and saw different instants
+                    rep.count("clock.tick_in_op");
+                    if !is_session { check_atomicity(&mut rep, ei, prop, &w, &lang, &full, &ev.clock, &o, &clk.values); }
+                    else {
+                        // a session step cannot be re-evaluated; the environment model cannot follow it either
+                        rep.unjudged += 1;
+                        if let Some(em) = session_env.get_mut(&ev.actor) { for l in text.lines.iter() { if let Line::Sem(Stmt::Assign { name, .. }) | Line::Sem(Stmt::FailAssign { name, .. }) = l { em.vals.remove(&name.key()); em.poisoned.insert(name.key()); } } }
+                    }
+                    continue;
+                }
+                let mut local = EnvModel::default();
+                let envm: &mut EnvModel = if is_session { session_env.entry(ev.actor).or_default() } else { &mut local };
+                for (i, l) in text.lines.iter().enumerate() {
+                    let slot = match lines.get(i) { Some(s) => &s.slot, None => { rep.violate("O-model", format!("{}:missing-slot", prop), ei, format!("text {:?} has no slot for line {}", full, i)); break; } };
+                    if let Line::Sem(stm) = l { if judge_line(&mut rep, ei, prop, stm, &rendered[i], slot, envm, &w, env, t) { rep.judged += 1; } else { rep.unjudged += 1; } }
+                    else { rep.unjudged += 1; }
+                }
+            }
             Op::SessionFormat => {
                 // the public formatter over the values of the session's last result, between two texts: its
                 // output is not judged here, but whatever it leaves in the session meets the next text
